@@ -32,6 +32,7 @@ Inductive fline :=
 | FOpen (guard : bool)      (* .if .ifdef .ifndef .ifmake .ifnmake .for; guard: the file's
                                multiple-inclusion guard *)
 | FClose                    (* .endif .endfor *)
+| FUndef (v : str)          (* .undef V *)
 | FOther.                   (* .else .elif, comments, rules, shell commands, empty lines *)
 
 (* ---------- which included files load the preferences ---------- *)
@@ -74,23 +75,29 @@ Definition really_loads_prefs (p : str) : bool :=
 Record sure := mksure {
   su_prefs : bool;          (* the preferences have been loaded for sure *)
   su_assigned : list str;   (* variables assigned for sure *)
-  su_open : list bool       (* the open blocks, innermost first: is it the guard? *)
+  su_open : list bool;      (* the open blocks, innermost first: is it the guard? *)
+  su_undef : list str       (* variables an .undef may have removed since (and no assignment for sure re-made) *)
 }.
+
+Definition remove_str (v : str) (l : list str) : list str := filter (fun x => negb (str_eqb v x)) l.
 
 Definition executed_for_sure (s : sure) : bool := forallb (fun g => g) (su_open s).
 
 Definition sure_step (s : sure) (l : fline) : sure :=
   match l with
   | FInclude p =>
-    mksure (su_prefs s || (executed_for_sure s && really_loads_prefs p)) (su_assigned s) (su_open s)
+    mksure (su_prefs s || (executed_for_sure s && really_loads_prefs p)) (su_assigned s) (su_open s) (su_undef s)
   | FAssign v =>
-    mksure (su_prefs s) (if executed_for_sure s then v :: su_assigned s else su_assigned s) (su_open s)
-  | FOpen g => mksure (su_prefs s) (su_assigned s) (g :: su_open s)
-  | FClose => mksure (su_prefs s) (su_assigned s) (tl (su_open s))
+    if executed_for_sure s
+    then mksure (su_prefs s) (v :: su_assigned s) (su_open s) (remove_str v (su_undef s))
+    else s
+  | FOpen g => mksure (su_prefs s) (su_assigned s) (g :: su_open s) (su_undef s)
+  | FClose => mksure (su_prefs s) (su_assigned s) (tl (su_open s)) (su_undef s)
+  | FUndef v => mksure (su_prefs s) (su_assigned s) (su_open s) (v :: su_undef s)   (* wherever it stands *)
   | FOther => s
   end.
 
-Definition sure_after (pre : list fline) : sure := fold_left sure_step pre (mksure false [] []).
+Definition sure_after (pre : list fline) : sure := fold_left sure_step pre (mksure false [] [] []).
 
 (* An environment (values of all variables when bmake evaluates the condition that
    follows the lines [pre]) is possible iff
@@ -99,9 +106,10 @@ Definition sure_after (pre : list fline) : sure := fold_left sure_step pre (mksu
      - the variables assigned for sure are defined,
      - if the preferences have been loaded for sure, the variables bsd.prefs.mk defines
        ([by_prefs]) are defined.
+   None of this holds for a variable that an .undef has touched since.
    Everything else is open: any other variable may be undefined, empty, or anything. *)
 Definition possible_env (always by_prefs : str -> bool) (pre : list fline) (e : env) : Prop :=
-  forall v,
+  forall v, in_strs v (su_undef (sure_after pre)) = false ->
     (always v = true -> e v <> None) /\
     (in_strs v (su_assigned (sure_after pre)) = true -> e v <> None) /\
     (su_prefs (sure_after pre) = true -> by_prefs v = true -> e v <> None).
